@@ -246,7 +246,27 @@ func mkSub(a, b string) string {
 	return app("-", a, b)
 }
 
-func mkSel(arr, i string) string      { return app("select", arr, i) }
+// mkSel: select, with read-over-write at a syntactically equal index resolved.
+func mkSel(arr, i string) string {
+	for strings.HasPrefix(arr, "(store ") {
+		args := splitArgs(arr[len("(store ") : len(arr)-1])
+		if len(args) != 3 {
+			break
+		}
+		if args[1] == i {
+			return args[2]
+		}
+		// distinct integer literals: look through the store
+		if a, ok1 := isIntLit(args[1]); ok1 {
+			if b, ok2 := isIntLit(i); ok2 && a != b {
+				arr = args[0]
+				continue
+			}
+		}
+		break
+	}
+	return app("select", arr, i)
+}
 func mkStore(arr, i, v string) string { return app("store", arr, i, v) }
 
 // smtString renders a Go string (a byte sequence) as an SMT-LIB string
